@@ -90,7 +90,7 @@ def generate(rng, tier):
             cases.append(sc.gen_ring(rng))
     # every special family is drawn a fixed number of times (the rotation above reaches each only once or twice)
     for g in (sc.gen_pipeline, sc.gen_relay2, sc.gen_two_relays, sc.gen_shared_equal, sc.gen_pull_ring, sc.gen_lookahead,
-              sc.gen_ring_mixed, sc.gen_relay_twice, sc.gen_ring_staggered):
+              sc.gen_ring_mixed, sc.gen_relay_twice, sc.gen_ring_staggered, sc.gen_topush_behind_pull):
         for _ in range(4 if tier == "quick" else 60):
             cases.append(g(rng))
     for k, c in enumerate(cases):
